@@ -160,7 +160,7 @@ Proof.
   - cbv beta iota; apply safe_act_upd. intros g1 a1 tr1 HInv1 Hv1. cbn [a_acc_st fst snd].
     rewrite u32_mkw_succ by lia.
     exists (set_dp l (S d) (l_ph l)). split; [|cbn; apply HQ].
-    tg; rewrite <- Hv1. replace (Z.of_nat d + 1) with (Z.of_nat (S d)) by lia. rewrite <- Hv1 at 2.
+    tg; rewrite <- Hv1. replace (Z.of_nat d + 1) with (Z.of_nat (S d)) by lia.
     apply step_acc_st; [exact HInv1|rewrite Hv1; exact H1|lia|rewrite Hv1; lia|right; reflexivity].
 Qed.
 
@@ -176,7 +176,7 @@ Proof.
   cbv beta iota; apply safe_act_upd. intros g1 a1 tr1 HInv1 Hv1. cbn [a_acc_st fst snd].
   rewrite u32_mkw_pred by lia. replace (Z.of_nat (S d) - 1) with (Z.of_nat d) by lia.
   exists (set_dp l d (l_ph l)). split; [|cbn; apply HQ].
-  tg; rewrite <- Hv1. rewrite <- Hv1 at 2.
+  tg; rewrite <- Hv1.
   apply step_acc_st; [exact HInv1|rewrite Hv1; exact H1|lia|rewrite Hv1; lia|right; reflexivity].
 Qed.
 
@@ -197,12 +197,12 @@ Proof.
   apply safe_access_lock with (d := d); auto. intros w ph.
   cbv beta iota; apply safe_emit_upd. intros g a tr HInv Hv. destruct d as [|d'].
   - exists (set_evcs (set_dp l 1%nat ph) 1%nat (Some (List.length tr))). split.
-    + unfold cli. tg; rewrite <- Hv. apply step_ev_rlock1; [reflexivity|exact HInv|rewrite Hv; exact H4|rewrite Hv; cbn; lia].
+    + tg; rewrite <- Hv. apply step_ev_rlock1; [reflexivity|exact HInv|rewrite Hv; cbn; exact H4|rewrite Hv; cbn; lia].
     + cbn. apply HQ. repeat split; cbn; auto.
   - exists (set_evcs (set_dp l (S (S d')) ph) (S (S d')) (l_cs (set_dp l (S (S d')) ph))). split.
-    + unfold cli. tg; rewrite <- Hv. apply step_ev_nested; try (rewrite Hv; cbn; lia); [|exact HInv].
-      apply neutral_cli; try reflexivity. unfold cli_is. cbn [String.eqb Ascii.eqb Bool.eqb andb].
-      change 1 with (Z.of_nat 1). rewrite zn_eqb_succ. reflexivity.
+    + tg; rewrite <- Hv. apply step_ev_nested; [|exact HInv|rewrite Hv; cbn; lia|rewrite Hv; cbn; lia|lia].
+      apply neutral_cli; try reflexivity; unfold cli_is; cbn [String.eqb Ascii.eqb Bool.eqb andb];
+      change 1 with (Z.of_nat 1); rewrite zn_eqb_succ; reflexivity.
     + cbn. apply HQ. repeat split; cbn; auto.
 Qed.
 
@@ -218,12 +218,12 @@ Proof.
     cbv beta iota; apply safe_emit_neutral; [apply neutral_cli; reflexivity|]. cbn. apply HQ. repeat split; cbn; auto. }
   destruct d as [|d'].
   - exists (set_evcs l O None). split.
-    + unfold cli. tg; rewrite <- Hv. apply step_ev_runlock0; [reflexivity|exact HInv|rewrite Hv; exact H4].
+    + tg; rewrite <- Hv. apply step_ev_runlock0; [reflexivity|exact HInv|rewrite Hv; exact H4].
     + apply K; cbn; auto.
   - exists (set_evcs l (S d') (l_cs l)). split.
-    + unfold cli. tg; rewrite <- Hv. rewrite <- Hv at 2. apply step_ev_nested; try (rewrite Hv; lia); [|exact HInv].
-      apply neutral_cli; try reflexivity. unfold cli_is. cbn [String.eqb Ascii.eqb Bool.eqb andb].
-      change 0 with (Z.of_nat 0). rewrite zn_eqb_succ. reflexivity.
+    + tg; rewrite <- Hv. apply step_ev_nested; [|exact HInv|rewrite Hv; lia|rewrite Hv; lia|lia].
+      apply neutral_cli; try reflexivity; unfold cli_is; cbn [String.eqb Ascii.eqb Bool.eqb andb];
+      change 0 with (Z.of_nat 0); rewrite zn_eqb_succ; reflexivity.
     + apply K; cbn; auto.
 Qed.
 
@@ -285,11 +285,8 @@ Proof.
   destruct (phase_differs v (mkw gph 1)) eqn:E.
   - exists (updA a t (set_w (a t) (WPhase i k gph (PScan done (m :: rest) L0)))). split; [|split; [apply frame_updA|]].
     + tg. eapply step_scan_pos; eauto. eapply wclause_forget; eauto.
-    + unfold view. rewrite updA_same, Hv. cbn [set_w].
-      replace (mkV (l_rec l) (l_att l) (l_seen l) (l_depth l) (l_ph l) (l_ev l) (l_cs l)
-                   (WPhase i k gph (PScan done (m :: rest) L0)) (l_sm l) (l_rm l)) with l.
-      * apply (IH i k gph done m rest l Q); auto.
-      * destruct l; cbn in *. rewrite Hw. reflexivity.
+    + unfold view. rewrite updA_same, Hv.
+      apply (IH i k gph done m rest _ Q); [reflexivity|exact HT|exact HF].
   - exists (updA a t (set_w (a t) (WPhase i k gph (PScan (m :: done) rest L0)))). split; [|split; [apply frame_updA|]].
     + tg. eapply step_scan_pos; eauto. eapply wclause_pass_phase; eauto.
     + unfold view. rewrite updA_same, Hv. cbn. exact HT.
@@ -302,9 +299,9 @@ Lemma safe_scan t fuel lst : forall i k gph done l (Q : bool -> L -> Prop),
 Proof.
   induction lst as [|m rest IH]; intros i k gph done l Q Hw HT HF; cbn [scan].
   - cbn. replace l with (set_w l (WPhase i k gph (PScan done [] L0))); [apply HT|]. destruct l; cbn in *. rewrite Hw. reflexivity.
-  - cbv beta iota; apply safe_bind. eapply safe_wait_rec; eauto.
-    + cbn. eapply IH; [reflexivity| |exact HF]. intros done'. cbn. apply HT.
-    + intros l'. cbn. apply HF.
+  - cbv beta iota; apply safe_bind. eapply safe_wait_rec; [exact Hw| |].
+    + cbv beta iota. eapply IH; [reflexivity| |exact HF]. intros done'. cbn. apply HT.
+    + intros l'. cbv beta iota. apply HF.
 Qed.
 
 Lemma safe_flip1 t fuel i l (Q : bool -> L -> Prop) :
@@ -348,11 +345,11 @@ Lemma safe_synchronize t fuel i l (Q : bool -> L -> Prop) :
   safe t (gpi_synchronize 2 fuel) l Q.
 Proof.
   intros Hw HT HF. unfold gpi_synchronize. cbv beta iota; apply safe_bind.
-  apply (safe_lock_loops t fuel i l); auto; [|intros l'; cbn; apply HF].
+  refine (proj1 (safe_lock_loops t fuel i l _ Hw _ _)); [|intros l'; cbv beta iota; apply HF].
   cbv beta iota; apply safe_bind. cbn [flips_and_wait]. cbv beta iota; apply safe_bind.
-  apply safe_flip1 with (i := i); [reflexivity| |intros l'; cbn; apply HF].
+  apply safe_flip1 with (i := i); [reflexivity| |intros l'; cbv beta iota; apply HF].
   intros gph done. cbv beta iota; apply safe_bind.
-  eapply safe_flip2; [reflexivity| |intros l'; cbn; apply HF].
+  eapply safe_flip2; [reflexivity| |intros l'; cbv beta iota; apply HF].
   intros gph' done'. cbv beta iota; apply safe_bind. unfold unlock.
   cbv beta iota; apply safe_act_upd. intros g a tr HInv Hv. unfold a_lock_st. cbn [fst snd].
   exists (set_w l (WFin i)). split.
@@ -376,7 +373,7 @@ Proof.
     + rewrite Hv; exact H5.
     + rewrite Hv; reflexivity.
     + left. rewrite Hv. repeat split.
-  - cbv beta iota; apply safe_bind. eapply safe_synchronize; [reflexivity| |intros l'; cbn; apply HF].
+  - cbv beta iota; apply safe_bind. eapply safe_synchronize; [reflexivity| |intros l'; cbv beta iota; apply HF].
     cbv beta iota; apply safe_emit_upd. intros g1 a1 tr1 HInv1 Hv1.
     exists (set_w (a1 t) WIdle). split.
     + tg. eapply step_ev_sync_end; eauto; rewrite Hv1; reflexivity.
@@ -395,7 +392,7 @@ Proof.
     + rewrite Hv; reflexivity.
     + right. rewrite Hv. split; [reflexivity|]. split; [reflexivity|]. exists p. split; [|reflexivity].
       unfold is_retire, cli_is. cbn. apply Z.eqb_refl.
-  - cbv beta iota; apply safe_bind. eapply safe_synchronize; [reflexivity| |intros l'; cbn; apply HF].
+  - cbv beta iota; apply safe_bind. eapply safe_synchronize; [reflexivity| |intros l'; cbv beta iota; apply HF].
     cbv beta iota; apply safe_emit_upd. intros g1 a1 tr1 HInv1 Hv1.
     exists (set_w (a1 t) WIdle). split.
     + tg. eapply step_ev_dispose; eauto; rewrite Hv1; reflexivity.
@@ -424,7 +421,7 @@ Proof.
   destruct o; cbn [run_op my_rec my_depth].
   - (* attach *) destruct rec as [m|]; [split; assumption|]. rewrite (Hnd eq_refl) in *.
     cbv beta iota; apply safe_bind. eapply safe_weaken; [|apply safe_attach; exact HI].
-    intros [m|] l' HQ; cbn in *; [|exact I].
+    intros [m|] l' HQ; cbn in HQ; [|exact I].
     cbv beta iota; apply safe_emit_neutral; [apply neutral_cli; reflexivity|]. split; [exact HQ|discriminate].
   - (* detach *) destruct rec as [m|]; [|split; assumption]. destruct d as [|d]; [|split; assumption].
     cbv beta iota; apply safe_bind. apply safe_detach; [exact HI|]. intros l' HI'.
@@ -496,9 +493,8 @@ Proof.
     + constructor; cbn; try discriminate; try contradiction; auto.
       * intros m _. exists false. reflexivity.
       * intros r. repeat split; auto.
-    + constructor; cbn; try contradiction.
-      * intros w w' [].
-      * exists false. split; [reflexivity|discriminate].
+    + constructor; cbn; try contradiction; try (intros w w' []).
+      exists false. split; [reflexivity|discriminate].
     + constructor; cbn; [discriminate|intros; exact I].
     + constructor; cbn; try discriminate.
       * intros r s (e & H & _). destruct s; discriminate.
